@@ -30,7 +30,7 @@ func init() {
 		ID:    "C15",
 		Level: "exploration",
 		Rule: "every constructor of itertools on ALL parameters up to the tier bound (n <= 8 quick / 9 thorough; k = 0..n+3; all multiplicity / factor vectors of length <= 4 (<= 6 for small sums) with the given sum, zeros and repeats included; " +
-			"extended ranges for the cheap families; "large n, small output" cases with 63..130 (Combinations: 1000) positions / values whose families have at most a few ten thousand objects, and the first few thousand objects of families too large to exhaust), predicate-driven iterators with a fixed table of predicates plus seeded hash predicates on the prefix contents and fixed plus seeded sub-orders of 0<1<...<n-1. " +
+			"extended ranges for the cheap families; large-n-small-output cases with 63..130 (Combinations: 1000) positions / values whose families have at most a few ten thousand objects, and the first few thousand objects of families too large to exhaust), predicate-driven iterators with a fixed table of predicates plus seeded hash predicates on the prefix contents and fixed plus seeded sub-orders of 0<1<...<n-1. " +
 			"Each iterator is driven for at most |expected|+1+3 calls of Next; every Value is copied at once and compared with a naive reference list (exact sequence where an order is documented, as a set otherwise), " +
 			"then three further Next calls must return false. non-trivial = the expected family has >= 2 objects and, for predicate-driven iterators, the predicate rejected at least one argument; distinct = hash of (constructor, parameters, predicate)",
 		Assumptions: []string{
